@@ -151,7 +151,8 @@ def run(module, cfg, name=None, overrides=None, workers=16, on_gen=None, on_line
         # 12 = safety violation, 13 = liveness; anything else without a recognised violation is machinery
         if "Error:" in "\n".join(tail) or p.returncode != 0:
             if not err_lines or "violated" not in res.error_text:
-                raise TlcFailure("TLC failed (rc=%s) on %s/%s:\n%s" % (p.returncode, module, cfg, "\n".join(tail[-25:])))
+                raise TlcFailure("TLC failed (rc=%s) on %s/%s:\n%s\n...\n%s" % (
+                    p.returncode, module, cfg, "\n".join(err_lines[:30]), "\n".join(tail[-8:])))
     return res
 
 
